@@ -47,6 +47,8 @@ def gen(rng, tier):
             # class of the exceptions raised by fn / error_fn and inside returned futures
             "raise_cls": rng.choice(["ScriptedError", "ScriptedError", "ScriptedError", "ErrStop", "ErrCancelled", "ErrAttr", "ErrKey"])}
     spec["sim"] = runner.draw_sim_cfg(rng, est=400)
+    if spec["cancel_at"] == "fn-running":
+        runner.prefer_place(spec["sim"], 0.4)
     spec["sim"]["horizon_s"] = 5000
     return spec
 
